@@ -432,6 +432,16 @@ def check_pc_oracle(case):
                         variant, "independence_match", 1, mcv, rtypes=rts)
             if f is not None:
                 return f
+    # tight bound: every non-adjacent pair is separated by the parent set of the later one, so max_cond_vars = maximal in-degree is enough
+    # for the exact skeleton (conditioning sets of size max_cond_vars itself must still be tried)
+    d = max((sum(1 for e in edges if e[1] == v) for v in nodes), default=0)
+    if d >= 1:
+        variant = VARIANTS[(k + d) % 3] if n_jobs == 1 else "parallel"
+        f = _run_pc(PC(data=data), f"callable oracle, variant={variant}, n_jobs={n_jobs}, max_cond_vars={d} (= maximal in-degree)", nodes, edges, ds, variant, ci,
+                    n_jobs, d, calls=calls, rtypes=("skeleton", "pdag"))
+        if f is not None:
+            f["key"] += ":tight-max_cond_vars"
+            return f
     return None
 
 
@@ -483,6 +493,21 @@ def check_pc_get_independencies(case):
                 return {"key": "independence_match:not-entailed",
                         "what": f"truth {edges}: independence_match({x},{y},{list(Z)}) on DAG.get_independencies() = {not ds.indep(x, y, Z)} but d-separation "
                                 f"says {ds.indep(x, y, Z)} (the list holds ({x} _|_ a superset | {list(Z)}) only)"}
+    # the same knowledge as a compact one-sided list: for x and Z one assertion (later separated nodes _|_ x | Z), several variables on the FIRST
+    # side; every independent pair is entailed by exactly one assertion, in one orientation - both query orders must still match
+    from pgmpy.independencies import Independencies
+
+    one = Independencies()
+    for i, x in enumerate(nodes):
+        for Z in all_subsets([v for v in nodes if v != x]):
+            S = [y for y in nodes[i + 1:] if y not in Z and ds.indep(x, y, Z)]
+            if S:
+                one.add_assertions([S, x, list(Z)])
+    for x, y in itertools.permutations(nodes, 2):
+        for Z in all_subsets([v for v in nodes if v not in (x, y)]):
+            if bool(independence_match(x, y, Z, independencies=one)) != ds.indep(x, y, Z):
+                return {"key": "independence_match:one-sided-list", "what": f"truth {edges}: independence_match({x},{y},{list(Z)}) = {not ds.indep(x, y, Z)} on the one-sided "
+                                f"compact list {one.get_assertions()}, d-separation says {ds.indep(x, y, Z)}"}
     est = PC(data=_dummy_data(nodes), independencies=ind)
     return _run_pc(est, f"get_independencies, variant={variant}", nodes, edges, ds, variant, "independence_match", 1, len(nodes))
 
@@ -588,7 +613,7 @@ def groups(tier):
         Group("pc_oracle", gen_truth, check_pc_oracle, nontrivial, seed_fanout=8, engine="E3",
               bound=dags + "; ground truth answered exactly (a) by a callable d-separation oracle (call sequence recorded) and (b) by the full pairwise "
                     "independence list with ci_test='independence_match' (+ a data frame that only carries the column names); variants orig/stable/parallel "
-                    "(n_jobs=1; 2 cases with n_jobs=2), max_cond_vars in {n,n+1,n+5}, return types skeleton / pdag|cpdag / dag; 8 hash seeds per case"),
+                    "(n_jobs=1; 2 cases with n_jobs=2), max_cond_vars in {n,n+1,n+5} and = the maximal in-degree (tight), return types skeleton / pdag|cpdag / dag; 8 hash seeds per case"),
         Group("pc_independencies_only", gen_indonly, check_pc_independencies_only, lambda c: nontrivial(c) and _mentions_all(c), seed_fanout=4, engine="E3",
               bound="DAGs <= 4 nodes (thorough: + 300 five-node DAGs) whose pairwise independence list mentions every node (others cannot be conveyed through PC(independencies=...) "
                     "without data and are skipped); one variant per case; isolated nodes missing from the PDAG/DAG are left to group isolated_nodes"),
